@@ -70,7 +70,8 @@ class LinearRHS:
 class JacobianContract:
     """contract of implicitmodel.calc_jacobian for a linear operator R(Y)=AY, used at the call sites
     inside the step methods (modular): ensures  self.jacobian == A  (row = cell*neq+eq),
-    self.neq, self.dim set, jacobian_use set; frame: nothing else of the solver or the field changes.
+    self.neq, self.dim set, jacobian_use set; frame: writes exactly {jacobian, jacobian_use, neq, dim, residual} of the solver
+    (residual is left unspecified), nothing of the field (obligation calc_jacobian/frame on the body).
     Proved against the body by the obligations 'calc_jacobian/*' (direct call, same sizes)."""
 
     def __init__(self, rhs):
@@ -85,6 +86,9 @@ class JacobianContract:
             return None
         Am = self.rhs.Am
         d = self.rhs.dim
+        # frame: the body evaluates the operator on perturbed fields, so it leaves self.residual holding the right-hand side of
+        # the LAST PERTURBED field: unspecified for the caller (havoc) -- a step that uses it afterwards without recomputing is wrong
+        slf.attrs["residual"] = [A.input_array("residual_left_by_calc_jacobian_%d_" % q, self.rhs.n) for q in range(self.rhs.neq)]
         slf.attrs["neq"] = fld.attrs["neq"]
         slf.attrs["dim"] = d
         slf.attrs["jacobian"] = SymMatrix(d, d, lambda r, c: Am[int(T.conc_value(T.tz(r)))][int(T.conc_value(T.tz(c)))], name="A")
@@ -168,7 +172,16 @@ def build(chk):
                 t0 = S["t0"]
                 if nm == "implicit":
                     # the contract of calc_jacobian against its body (direct call on a copy of the field)
-                    it.call(it.getattr(S["solver"], "calc_jacobian"), [it.call(it.getattr(S["field"], "copy"), [], {})], {})
+                    slv_ = S["solver"]
+                    log = {id(slv_): {"obj": slv_, "read": [], "write": []}}
+                    it.attr_log = log
+                    try:
+                        it.call(it.getattr(slv_, "calc_jacobian"), [it.call(it.getattr(S["field"], "copy"), [], {})], {})
+                    finally:
+                        it.attr_log = None
+                    written = sorted(set(log[id(slv_)]["write"]))
+                    prove("calc_jacobian/frame", set(written) <= {"jacobian", "jacobian_use", "neq", "dim", "residual"}, replay=rp,
+                          note="attributes of the solver written by the body: %s" % (written,))
                     J = S["solver"].attrs["jacobian"]
                     for r in range(rhs.dim):
                         for c in range(rhs.dim):
